@@ -482,37 +482,142 @@ theorem Sat.netrefFactory {c : Ctx} (hA : AwaitOK c) {need : List Nat} (idp : Id
   refine Sat.ite (fun _ => ?_) (fun _ => Sat.pure _ (by simp))
   exact Sat.modify _ (fun _ => rfl) (fun _ s hs => ⟨s, hs, rfl⟩) (fun _ p hp => hp)
 
-theorem unbox_sat {c : Ctx} (hA : AwaitOK c) : ∀ f need pkg, Sat c need (unbox f pkg) PV.objs := by
+mutual
+def Pkg.objs : Pkg → List Nat
+  | .res o => [o]
+  | .node xs => Pkg.objsL xs
+  | .leaf _ _ => []
+def Pkg.objsL : List Pkg → List Nat
+  | [] => []
+  | x :: xs => x.objs ++ Pkg.objsL xs
+end
+
+theorem pkgObjsL_eq_flatMap (xs : List Pkg) : Pkg.objsL xs = xs.flatMap Pkg.objs := by
+  induction xs with
+  | nil => rfl
+  | cons x xs ih => simp [Pkg.objsL, ih]
+
+theorem resolve_sat {c : Ctx} : ∀ f need pkg, Sat c need (resolve f pkg) Pkg.objs := by
   intro f
   induction f with
-  | zero => intro need pkg; simp only [unbox]; exact Sat.throwE _
+  | zero => intro need pkg; simp only [resolve]; exact Sat.throwE _
   | succ f ihf =>
     intro need pkg
-    simp only [unbox]
+    simp only [resolve]
     refine Sat.bind (Sat.liftE _ (Q := fun _ => []) (by simp)) (fun lv => ?_)
-    refine Sat.ite (fun _ => Sat.pure _ (by simp [PV.objs])) (fun _ => ?_)
     refine Sat.ite (fun _ => ?_) (fun _ => ?_)
     · refine Sat.bind (Sat.liftE _ (Q := fun _ => []) (by simp)) (fun items => ?_)
-      refine Sat.bind (Sat.inGenerator (Sat.mapM' _ (fun _ => []) PV.objs (fun x need' _ => ihf need' x) items
+      refine Sat.bind (Sat.inGenerator (Sat.mapM' _ (fun _ => []) Pkg.objs (fun x need' _ => ihf need' x) items
         (by intro x _ o ho; cases ho))) (fun xs => ?_)
       refine Sat.pure _ ?_
       intro o ho
-      have := mkTuple_objs xs o ho
-      rw [objsL_eq_flatMap] at this
-      simp [this]
-    refine Sat.ite (fun _ => ?_) (fun _ => ?_)
-    · refine Sat.bind (Sat.tableGet _) (fun o => ?_)
-      exact Sat.pure _ (by mem_tac)
-    refine Sat.ite (fun _ => ?_) (fun _ => Sat.throwE _)
-    refine Sat.bind (Sat.liftE _ (Q := fun _ => []) (by simp)) (fun v0 => ?_)
-    refine Sat.bind (Sat.liftE _ (Q := fun _ => []) (by simp)) (fun v1 => ?_)
-    refine Sat.bind (Sat.liftE _ (Q := fun _ => []) (by simp)) (fun v2 => ?_)
-    refine Sat.bind_getCtx ?_
-    refine Sat.bind_getSt (fun st => ?_)
-    refine Sat.ite (fun _ => Sat.pure _ (by simp [PV.objs])) (fun _ => ?_)
-    refine Sat.bind (Sat.netrefFactory hA _) (fun _ => ?_)
-    refine Sat.bind (Sat.modify _ (fun _ => rfl) (fun _ s hs => ⟨s, hs, rfl⟩) (fun _ p hp => hp)) (fun _ => ?_)
-    exact Sat.pure _ (by simp [PV.objs])
+      simp only [Pkg.objs, pkgObjsL_eq_flatMap] at ho
+      simp [ho]
+    refine Sat.ite (fun _ => ?_) (fun _ => Sat.pure _ (by simp [Pkg.objs]))
+    refine Sat.bind (Sat.tableGet _) (fun o => ?_)
+    exact Sat.pure _ (by simp [Pkg.objs])
+
+theorem unbox2_sat {c : Ctx} (hA : AwaitOK c) : ∀ f need p, (∀ o ∈ p.objs, o ∈ need) → Sat c need (unbox2 f p) PV.objs := by
+  intro f
+  induction f with
+  | zero => intro need p _; simp only [unbox2]; exact Sat.throwE _
+  | succ f ihf =>
+    intro need p hp
+    cases p with
+    | res o => simp only [unbox2]; exact Sat.pure _ (by simpa [PV.objs, Pkg.objs] using hp)
+    | node xs =>
+      simp only [unbox2]
+      refine Sat.bind (Sat.inGenerator (Sat.mapM' _ Pkg.objs PV.objs (fun x need' hx => ihf need' x hx) xs ?_)) (fun ys => ?_)
+      · intro x hx o ho
+        refine hp o ?_
+        simp only [Pkg.objs, pkgObjsL_eq_flatMap, List.mem_flatMap]
+        exact ⟨x, hx, ho⟩
+      · refine Sat.pure _ ?_
+        intro o ho
+        have := mkTuple_objs ys o ho
+        rw [objsL_eq_flatMap] at this
+        simp [this]
+    | leaf label value =>
+      simp only [unbox2]
+      refine Sat.ite (fun _ => Sat.pure _ (by simp [PV.objs])) (fun _ => ?_)
+      refine Sat.ite (fun _ => ?_) (fun _ => Sat.throwE _)
+      refine Sat.bind (Sat.liftE _ (Q := fun _ => []) (by simp)) (fun v0 => ?_)
+      refine Sat.bind (Sat.liftE _ (Q := fun _ => []) (by simp)) (fun v1 => ?_)
+      refine Sat.bind (Sat.liftE _ (Q := fun _ => []) (by simp)) (fun v2 => ?_)
+      refine Sat.bind_getCtx ?_
+      refine Sat.bind_getSt (fun st => ?_)
+      refine Sat.ite (fun _ => Sat.pure _ (by simp [PV.objs])) (fun _ => ?_)
+      refine Sat.bind (Sat.netrefFactory hA _) (fun _ => ?_)
+      refine Sat.bind (Sat.modify _ (fun _ => rfl) (fun _ s hs => ⟨s, hs, rfl⟩) (fun _ p hp => hp)) (fun _ => ?_)
+      exact Sat.pure _ (by simp [PV.objs])
+
+theorem unbox_sat {c : Ctx} (hA : AwaitOK c) (f : Nat) (need : List Nat) (pkg : Val) : Sat c need (unbox f pkg) PV.objs := by
+  unfold unbox
+  refine Sat.bind (resolve_sat f need pkg) (fun p => ?_)
+  exact unbox2_sat hA f _ p (by mem_tac)
+
+/-- `m` neither changes the state nor consumes a message -/
+def Quiet {α} (c : Ctx) (m : M α) : Prop := ∀ st fut, (m c st fut).st = st ∧ (m c st fut).fut = fut
+
+theorem Quiet.pure {α} {c : Ctx} (a : α) : Quiet c (Pure.pure a : M α) := fun _ _ => ⟨rfl, rfl⟩
+theorem Quiet.throwE {α} {c : Ctx} (e : Err) : Quiet c (Handlers.throwE e : M α) := fun _ _ => ⟨rfl, rfl⟩
+theorem Quiet.liftE {α} {c : Ctx} (r : Except Err α) : Quiet c (Handlers.liftE r : M α) := by
+  cases r with
+  | ok a => exact Quiet.pure a
+  | error e => exact Quiet.throwE e
+
+theorem Quiet.bind {α β} {c : Ctx} {m : M α} {f : α → M β} (h1 : Quiet c m) (h2 : ∀ a, Quiet c (f a)) :
+    Quiet c (m >>= f) := by
+  intro st fut
+  simp only [Bind.bind]
+  have := h1 st fut
+  cases hm : m c st fut with
+  | mk r st1 fut1 =>
+    rw [hm] at this
+    obtain ⟨e1, e2⟩ := this
+    subst e1; subst e2
+    cases r with
+    | error x => exact ⟨rfl, rfl⟩
+    | ok a => exact h2 a st1 fut1
+
+theorem Quiet.ite {α} {c : Ctx} {b : Bool} {m1 m2 : M α} (h1 : Quiet c m1) (h2 : Quiet c m2) :
+    Quiet c (if b then m1 else m2) := by
+  cases b <;> simpa
+
+theorem Quiet.inGenerator {α} {c : Ctx} {m : M α} (h : Quiet c m) : Quiet c (inGenerator m) := by
+  intro st fut
+  have := h st fut
+  unfold Handlers.inGenerator
+  cases hm : m c st fut with
+  | mk r st1 fut1 =>
+    rw [hm] at this
+    cases r <;> exact this
+
+theorem Quiet.mapM' {α β : Type} {c : Ctx} (g : α → M β) (hg : ∀ x, Quiet c (g x)) (xs : List α) : Quiet c (mapM' g xs) := by
+  induction xs with
+  | nil => simp only [Handlers.mapM']; exact Quiet.pure _
+  | cons x xs ih =>
+    simp only [Handlers.mapM']
+    exact Quiet.bind (hg x) (fun b => Quiet.bind ih (fun bs => Quiet.pure _))
+
+theorem Quiet.tableGet {c : Ctx} (key : Val) : Quiet c (tableGet key) := by
+  intro st fut
+  unfold Handlers.tableGet
+  cases lookupSlot st.table key <;> exact ⟨rfl, rfl⟩
+
+/-- the first pass of `_unbox` changes nothing: no log entry (so no request to the peer), no table entry, no proxy,
+no message consumed -/
+theorem resolve_quiet (c : Ctx) : ∀ f pkg, Quiet c (resolve f pkg) := by
+  intro f
+  induction f with
+  | zero => intro pkg; simp only [resolve]; exact Quiet.throwE _
+  | succ f ihf =>
+    intro pkg
+    simp only [resolve]
+    refine Quiet.bind (Quiet.liftE _) (fun lv => ?_)
+    refine Quiet.ite ?_ (Quiet.ite (Quiet.bind (Quiet.tableGet _) (fun o => Quiet.pure _)) (Quiet.pure _))
+    exact Quiet.bind (Quiet.liftE _) (fun items =>
+      Quiet.bind (Quiet.inGenerator (Quiet.mapM' _ (fun x => ihf x) items)) (fun xs => Quiet.pure _))
 
 theorem Sat.unboxTop {c : Ctx} (hA : AwaitOK c) {need : List Nat} (pkg : Val) : Sat c need (unboxTop pkg) PV.objs := by
   unfold Handlers.unboxTop
